@@ -65,6 +65,14 @@ PLAN = {
             {"run": "TestC04_CLI", "checks": 2000, "shards": 2, "timeout": 3000},
         ],
     },
+    "C05": {
+        "quick": [
+            {"run": "TestC05_Cache", "checks": 1500},
+        ],
+        "thorough": [
+            {"run": "TestC05_Cache", "checks": 60000, "shards": 16, "timeout": 3000},
+        ],
+    },
     "C12": {
         "quick": [
             {"run": "TestC12_Model", "checks": 4000},
